@@ -19,6 +19,8 @@ run (mirror halo) as the corresponding box of the full run.
 
 from __future__ import annotations
 
+import re
+
 from props import common as K
 from vc import array as A
 from vc import scene
@@ -277,3 +279,165 @@ def tasks(tier, seed):
             for ti, tr in enumerate(trans_opts if (tier == "thorough" or fi == 0) else trans_opts[:1]):
                 out[f"detector/axis{a}/far={far}/trans{ti}"] = Task(_detector_task(dict(axis=a, far=far, trans=tr)), max_paths=256)
     return out
+
+
+# ---------------------------------------------------------------------------------------------
+# replay on the real code (real JAX, concrete arrays)
+
+
+def _np_unfold(R, kind, a, n, rng):
+    """numpy unfolding of a reduced field (3, ...) to the full domain; row 0 along a (not determined by the
+    reduced run for on-plane components) is filled with random values"""
+    import numpy as np
+
+    shp = list(R.shape)
+    shp[1 + a] = 2 * n
+    out = np.zeros(shp, dtype=R.dtype)
+    for comp in range(3):
+        p, onp = parity(kind, comp, a), on_plane(kind, comp, a)
+        for i in range(2 * n):
+            dst = [slice(None)] * 3
+            dst[a] = i
+            src = [slice(None)] * 3
+            if i >= n:
+                src[a], f = i - n, 1
+            elif i == 0:
+                out[(comp, *dst)] = rng.normal(size=out[(comp, *dst)].shape)
+                continue
+            else:
+                src[a], f = (n - i) if onp else (n - 1 - i), p
+            out[(comp, *dst)] = f * R[(comp, *src)]
+    return out
+
+
+def replay(key, obligation, witness):
+    """real update_E/update_H (and update_detector_states) under real JAX on a concrete reduced domain and on
+    the full domain built from it by unfolding (materials constant along the axis); compares full with
+    unfold(reduced) outside the influence region after 1..n-1 steps, and the co-located detector records"""
+    import ast
+
+    import jax.numpy as jnp
+    import numpy as np
+
+    import fdtdx
+    import fdtdx.fdtd.update as U
+    from fdtdx.fdtd.container import ObjectContainer
+
+    note = ((witness or {}).get("notes") or {}).get("spec") or {}
+    spec = {}
+    for k, v in note.items():
+        try:
+            spec[k] = ast.literal_eval(v)
+        except Exception:  # noqa: BLE001
+            spec[k] = v
+    if "axis" not in spec:
+        m = re.search(r"axis(\d)", key)
+        spec = dict(axis=int(m.group(1)) if m else 0, far=None, trans=((None, None), ("periodic", "periodic")), eps=3, mu=1, sigE=None)
+    a, far, trans = spec["axis"], spec.get("far"), spec["trans"]
+    lower = spec.get("lower", far)
+    rest = [x for x in range(3) if x != a]
+    assign_red, assign_full = [None] * 3, [None] * 3
+    assign_red[a], assign_full[a] = ("pec", far), (lower, far)
+    for x, p in zip(rest, trans):
+        assign_red[x] = assign_full[x] = tuple(p)
+    sym = [0, 0, 0]
+    sym[a] = -1
+    details, bad = [], False
+    for trial, n in enumerate((3, 4)):
+        red_shape = [3, 2, 4]
+        red_shape[a] = n
+        wit = {"scalars": {f"N{c}": red_shape[i] for i, c in enumerate("xyz")}}
+        eps_t, mu_t, sig_t = spec.get("eps", 3), spec.get("mu", 1), spec.get("sigE")
+        shape, cfg_r, objs_r, red, rng = K.concrete_scene(dict(bnd=tuple(assign_red), eps=eps_t, mu=mu_t, sigE=sig_t, symmetry=tuple(sym)), wit, seed=trial, min_dim=2)
+        objs_r = [o.aset("_is_symmetry_wall", True) if (getattr(o, "axis", None) == a and getattr(o, "direction", None) == "-") else o for o in objs_r]
+        full_shape = list(shape)
+        full_shape[a] = 2 * n
+        wit_f = {"scalars": {f"N{c}": full_shape[i] for i, c in enumerate("xyz")}}
+        _, cfg_f, objs_f, full, _ = K.concrete_scene(dict(bnd=tuple(assign_full), eps=eps_t, mu=mu_t, sigE=sig_t), wit_f, seed=trial, min_dim=2)
+
+        def const_along(X, length):
+            if not hasattr(X, "shape") or getattr(X, "ndim", 0) == 0:
+                return X
+            sl = [slice(None)] * 4
+            sl[1 + a] = slice(0, 1)
+            return jnp.repeat(jnp.asarray(X)[tuple(sl)], length, axis=1 + a)
+
+        for nm in ("inv_permittivities", "inv_permeabilities", "electric_conductivity"):
+            v = getattr(red, nm)
+            if v is None:
+                continue
+            red = red.aset(nm, const_along(v, n))
+            full = full.aset(nm, const_along(v, 2 * n))
+        E = np.array(red.fields.E)
+        H = np.array(red.fields.H)
+        Hp = np.array(rng.normal(size=H.shape))
+        sl = [slice(None)] * 3
+        sl[a] = 0
+        for comp in range(3):
+            if comp != a:
+                E[(comp, *sl)] = 0
+        H[(a, *sl)] = 0
+        Hp[(a, *sl)] = 0
+        for ax, (lo, hi) in enumerate(assign_red):  # H_prev obeys the same PMC wall conditions as H
+            for kind, face in ((lo, 0), (hi, shape[ax] - 1)):
+                if kind == "pmc":
+                    for comp in range(3):
+                        if comp != ax:
+                            s2 = [slice(None)] * 3
+                            s2[ax] = face
+                            Hp[(comp, *s2)] = 0
+        red = red.aset("fields->E", jnp.asarray(E)).aset("fields->H", jnp.asarray(H))
+        full = full.aset("fields->E", jnp.asarray(_np_unfold(E, "E", a, n, rng))).aset("fields->H", jnp.asarray(_np_unfold(H, "H", a, n, rng)))
+        scale = 1.0
+        if key.startswith("detector"):
+            T = 3
+            d = max(1, n - 1)
+            box_r = [(0, m) for m in shape]
+            box_r[a] = (0, d)
+            box_f = [(0, m) for m in full_shape]
+            box_f[a] = (n, n + d)
+
+            def det(box, cfg):
+                dd = fdtdx.FieldDetector(name="det", exact_interpolation=True, dtype=jnp.float64)
+                dd = scene._place(dd, box, cfg)
+                dd = dd.aset("_is_on_at_time_step_arr", jnp.ones((T,), dtype=bool), create_new_ok=True)
+                return dd.aset("_time_step_to_arr_idx", jnp.arange(T, dtype=jnp.int32), create_new_ok=True)
+
+            dshape = tuple(hi - lo for lo, hi in box_r)
+            st = {"det": {"fields": jnp.zeros((T, 6, *dshape))}}
+            oc_r = ObjectContainer(object_list=[*objs_r, det(box_r, cfg_r)], volume_idx=0)
+            oc_f = ObjectContainer(object_list=[*objs_f, det(box_f, cfg_f)], volume_idx=0)
+            t = jnp.asarray(1, dtype=jnp.int32)
+            import jax
+
+            with jax.disable_jit():  # the hand-built config is not a valid jit operand (detector carries it)
+                rr = U.update_detector_states(t, red.aset("detector_states", st), oc_r, cfg_r, jnp.asarray(Hp), inverse=False).detector_states["det"]["fields"]
+                rf = U.update_detector_states(t, full.aset("detector_states", st), oc_f, cfg_f, jnp.asarray(_np_unfold(Hp, "H", a, n, rng)), inverse=False).detector_states["det"]["fields"]
+            diff = K.max_abs_diff(rr, rf)
+            details.append(f"n={n}, detector box [0,{d}) vs [{n},{n + d}) along axis {a}: max |record_full - record_reduced| = {diff:.3e}")
+            bad |= diff > 1e-9 * scale
+            continue
+        oc_r = ObjectContainer(object_list=objs_r, volume_idx=0)
+        oc_f = ObjectContainer(object_list=objs_f, volume_idx=0)
+        r, f = red, full
+        for step in range(1, n):
+            t = jnp.asarray(step, dtype=jnp.int32)
+            r = U.update_H(t, U.update_E(t, r, oc_r, cfg_r, True), oc_r, cfg_r, True)
+            f = U.update_H(t, U.update_E(t, f, oc_f, cfg_f, True), oc_f, cfg_f, True)
+            L = 1 + step
+            for kind, Xr, Xf in (("E", r.fields.E, f.fields.E), ("H", r.fields.H, f.fields.H)):
+                tgt = _np_unfold(np.array(Xr), kind, a, n, rng)
+                s3 = [slice(None)] * 4
+                s3[1 + a] = slice(L, None)
+                diff = K.max_abs_diff(np.array(Xf)[tuple(s3)], tgt[tuple(s3)])
+                mag = float(np.max(np.abs(tgt[tuple(s3)]))) or 1.0
+                if diff > 1e-9 * mag:
+                    bad = True
+                    details.append(f"n={n}, after {step} step(s): {kind} full vs unfold(reduced) on rows >= {L} along axis {a}: max abs diff {diff:.3e} (scale {mag:.2e})")
+            # the reduced run keeps its wall conditions
+            w = float(np.max(np.abs(np.array(r.fields.E)[[c for c in range(3) if c != a]][(slice(None), *sl)])))
+            if w > 1e-12:
+                bad = True
+                details.append(f"n={n}, after {step} step(s): tangential E on the plane row of the reduced run = {w:.3e}")
+        details.append(f"n={n}: {n - 1} real steps compared on reduced shape {tuple(shape)} / full shape {tuple(full_shape)}")
+    return bad, "\n".join(details)
